@@ -133,7 +133,7 @@ func c02Accept(name, src string) (*c02Tmpl, bool) {
 	return nil, false
 }
 
-var c02Values = []string{"1", "", "0", "a", "b", "d", "x y", "a|b", "p|q|r", "x<y", `he said "hi"`, "it's & co", "</script>", "color:red", "/path?q=1&r=2",
+var c02Values = []string{"27\"", "a&", "<", "ab'", "naïve>", "1", "", "0", "a", "b", "d", "x y", "a|b", "p|q|r", "x<y", `he said "hi"`, "it's & co", "</script>", "color:red", "/path?q=1&r=2",
 	"data-a=1,hidden", "title=t<,off=!", "é日本", "1", "1", "a", "<i>|</i>", "pre|mid|post", "only", "${x}`", "javascript:alert(1)", "width:1px;color:blue"}
 
 func c02ArgSet(r *rng) map[string]string {
